@@ -49,5 +49,5 @@ def run(ck, tier, seed):
                     ck.violation("%s segment %d shapes differently with face options %d (%s) than with options 0 (file)" % (b[0], b[1], opts, src),
                                  {"why": "options change results", "id": b[0], "seg": b[1], "opts": opts, "src": src})
     ck.traces += nseg
-    ck.extra["impl"]["corpus_option_sweep"] = {"segments": nseg, "differing": ndiff}
+    ck.extra.setdefault("impl", {})["corpus_option_sweep"] = {"segments": nseg, "differing": ndiff}
     ck.assumptions += ["well-formed fonts only (shipped corpus); equality is on the full public-API dump"]
